@@ -357,6 +357,15 @@ func (s *c11state) checkViews(ctx string) {
 				if hlref.U32(dsz) != int(g.Size) || int(g.Size) != len(n.content) {
 					s.fail("%s: file %q in %v: list size %d, download file size %d, bytes on disk %d", ctx, nm, p, g.Size, hlref.U32(dsz), len(n.content))
 				}
+				// ... and for every fourth name the download is followed through: the transfer that was granted under the listed
+				// name carries that file
+				if ref, ok := dr.Get(hlref.FRefNum); ok && len(nm) > 0 && (int(nm[0])+len(nm))%4 == 0 {
+					rx, _ := s.w.Transfer("10.0.0.1:9", ref, 0, nil, -1)
+					ph, err := hlref.ParseFlatHeader(rx)
+					if err != nil || ph.DataSize != len(n.content) || len(rx) < ph.HeaderLen+len(n.content) || !bytes.Equal(rx[ph.HeaderLen:ph.HeaderLen+len(n.content)], n.content) {
+						s.fail("%s: file %q in %v, requested for download by its listed name: the transfer does not carry the file's %d bytes (%d bytes arrived, header: %v)", ctx, nm, p, len(n.content), len(rx), err)
+					}
+				}
 			}
 		}
 	}
